@@ -93,6 +93,12 @@ impl MutableItem {
         key.verify(&encode_signable(seq, &v, salt.as_deref()), &signature)
             .map_err(|_| MutableError::InvalidMutableSignature)?;
 
+        // BEP_0044: the target MUST be the sha1 hash of the public key and the salt, otherwise
+        // an item validly signed by any other key would be accepted for this target.
+        if target != MutableItem::target_from_key(&key.to_bytes(), salt.as_deref()) {
+            return Err(MutableError::InvalidMutablePublicKey);
+        }
+
         Ok(Self {
             target,
             key: key.to_bytes(),
